@@ -18,3 +18,7 @@ def arow_get_clone(c0, c1, x, **kw):
     v1, d1 = r_h_krow.get_cell(x=x, q=0, clone=True, c0=c0, c1=c1)
     v2, d2 = r_h_krow.readers_small(start=0, end=c0 + c1, k=min(x, c0 + c1 - 1), c0=c0, c1=c1)
     return v1 or v2, d1 + " | " + d2
+
+
+arow_set_small = arow_set
+arow_insert_small = arow_insert
